@@ -16,6 +16,7 @@ type Gateway struct {
 	mu     sync.Mutex
 	Status int
 	pushes []map[string]uint64
+	state  map[string]uint64
 	errs   int
 }
 
@@ -23,6 +24,7 @@ func NewGateway(status int) *Gateway {
 	g := &Gateway{Status: status}
 	g.srv = httptest.NewServer(http.HandlerFunc(func(w http.ResponseWriter, r *http.Request) {
 		counts := map[string]uint64{}
+		sawIteration := false
 		dec := expfmt.NewDecoder(r.Body, expfmt.ResponseFormat(r.Header))
 		bad := false
 		for {
@@ -36,6 +38,7 @@ func NewGateway(status int) *Gateway {
 			if mf.GetName() != IterationFamily {
 				continue
 			}
+			sawIteration = true
 			for _, m := range mf.GetMetric() {
 				res, stage := "", ""
 				for _, lp := range m.GetLabel() {
@@ -55,6 +58,10 @@ func NewGateway(status int) *Gateway {
 		if bad {
 			g.errs++
 		}
+		// a push gateway keeps one group per job: PUT replaces the whole group, POST only the families it carries
+		if r.Method == http.MethodPut || sawIteration {
+			g.state = counts
+		}
 		g.pushes = append(g.pushes, counts)
 		g.mu.Unlock()
 		w.WriteHeader(g.Status)
@@ -65,12 +72,12 @@ func NewGateway(status int) *Gateway {
 func (g *Gateway) URL() string { return g.srv.URL }
 func (g *Gateway) Close()      { g.srv.Close() }
 
-// Pushes returns the number of pushes received and the iteration counts of the last one.
+// Pushes returns the number of pushes received and the iteration counts the gateway now holds for the job.
 func (g *Gateway) Pushes() (int, map[string]uint64, int) {
 	g.mu.Lock()
 	defer g.mu.Unlock()
 	if len(g.pushes) == 0 {
 		return 0, nil, g.errs
 	}
-	return len(g.pushes), g.pushes[len(g.pushes)-1], g.errs
+	return len(g.pushes), g.state, g.errs
 }
